@@ -169,10 +169,13 @@ def run_shard(shard):
     elif part == "sound":
         # soundness: interval I (bed), query range R (bed): I within R or overlapping R => bin(I) in bins(R)
         valid = [p for p in pts if 0 <= p < MAXC]
-        ranges = [(s, e) for s in valid for e in valid if s < e]
+        # query ranges may reach beyond the addressable 2^29 (chromosomes longer than 512 Mb): the bin set must still
+        # contain the bin of every interval inside/overlapping the range
+        rvalid = valid + [MAXC, MAXC + 1, MAXC + 3, 2**30 - 1, 2**30]
+        ranges = [(s, e) for s in rvalid for e in rvalid if s < e]
         my = ranges[shard["i"] :: shard["n"]]
         # intervals: a reduced but complete-per-band set: pairs within the same or neighbouring band
-        ivs = [(s, e) for s in valid for e in valid if s < e and e - s <= (1 << 17) + 8]
+        ivs = [(s, e) for s in rvalid for e in rvalid if s < e and e - s <= (1 << 17) + 8]
         ivbins = {}
         for (s, e) in ivs:
             ivbins[(s, e)] = bins(s, e, fmt="bed", one=True)
